@@ -128,6 +128,74 @@ func TestVerifDump(t *testing.T) {
 			return false
 		})
 	}
+	// comparator field order of Matches.Less and matchRanges.Less, read off the AST:
+	// a chain of `if a.F != b.F { return a.F OP b.F }` ... `return a.F OP b.F`.
+	lessFields := func(file, recv string) [][2]string {
+		res := [][2]string{}
+		f, err := parser.ParseFile(fset, file, nil, 0)
+		if err != nil {
+			return nil
+		}
+		selName := func(e ast.Expr) string {
+			if se, ok := e.(*ast.SelectorExpr); ok {
+				return se.Sel.Name
+			}
+			return "?"
+		}
+		ok := true
+		ast.Inspect(f, func(n ast.Node) bool {
+			fd, isFn := n.(*ast.FuncDecl)
+			if !isFn || fd.Name.Name != "Less" || fd.Recv == nil || len(fd.Recv.List) != 1 {
+				return true
+			}
+			if id, isID := fd.Recv.List[0].Type.(*ast.Ident); !isID || id.Name != recv {
+				return true
+			}
+			for _, st := range fd.Body.List {
+				var ret *ast.ReturnStmt
+				guard := ""
+				switch x := st.(type) {
+				case *ast.IfStmt:
+					if be, isB := x.Cond.(*ast.BinaryExpr); isB && be.Op == gotoken.NEQ && x.Else == nil && len(x.Body.List) == 1 {
+						guard = selName(be.X)
+						if selName(be.Y) != guard {
+							ok = false
+						}
+						ret, _ = x.Body.List[0].(*ast.ReturnStmt)
+					} else {
+						ok = false
+					}
+				case *ast.ReturnStmt:
+					ret = x
+				case *ast.AssignStmt:
+					continue // di, dj := d[i], d[j]
+				default:
+					ok = false
+				}
+				if ret == nil || len(ret.Results) != 1 {
+					ok = false
+					continue
+				}
+				be, isB := ret.Results[0].(*ast.BinaryExpr)
+				if !isB || (be.Op != gotoken.LSS && be.Op != gotoken.GTR) || selName(be.X) != selName(be.Y) || (guard != "" && guard != selName(be.X)) {
+					ok = false
+					continue
+				}
+				res = append(res, [2]string{selName(be.X), be.Op.String()})
+			}
+			return false
+		})
+		if !ok {
+			return nil // shape not recognised: no fact
+		}
+		return res
+	}
+	if lf := lessFields("classifier.go", "Matches"); lf != nil {
+		out["matchLessFields"] = lf
+	}
+	if lf := lessFields("searchset.go", "matchRanges"); lf != nil {
+		out["matchRangesLessFields"] = lf
+	}
 	b, _ := json.MarshalIndent(out, "", " ")
 	if err := os.WriteFile(os.Getenv("VERIF_OUT")+"/tables.json", b, 0o644); err != nil {
 		t.Fatal(err)
